@@ -9,8 +9,8 @@
 (*                                                                           *)
 (* Families (constant Fam):                                                  *)
 (*   "rules"  every rule list of length <= MaxRules over the alphabet below  *)
-(*            (Alpha = "full": 30 symbols, "core": 8)  x the fixed input     *)
-(*            inputs Inputs[i], i in InputSel                                *)
+(*            (Alpha = "full": 30 symbols, "core": 8) x the fixed inputs     *)
+(*            Inputs[i], i in InputSel                                       *)
 (*   "inputs" every input (files <= MaxFiles, values per file <= MaxVals,    *)
 (*            nsel in NSel, root shapes ShapeSet) x the fixed rule lists     *)
 (*   "sim"    both built freely, arrays grown up to MaxArr (for -simulate)   *)
@@ -39,9 +39,10 @@ CanFollow(rs, r) == (Len(rs) > 0 /\ rs[Len(rs)].body = "bare") => ~(r.kind = "P"
 
 SigOf(r) == IF r.body \in {"next", "exit"} THEN r.body ELSE "none"
 
-\* ---- element kinds and the two data-driven patterns (`$` and `$.p`)
-ElemKinds == {"n1", "n0", "s1", "s0", "nul", "o1", "o0", "ar"}   \* number # 0 / 0, string non-empty / empty,
-                                                              \* null, {"p": truthy}, {"p": falsy}, nested array
+\* ---- element kinds and the two data-driven patterns: "self" is the truthiness of the
+\* element itself (`$`), "memb" that of its member p (`$.p`, false for anything but an object)
+ElemKinds == {"n1", "n0", "s1", "s0", "nul", "o1", "o0", "ar"}   \* number # 0 / 0, string non-empty / empty, null,
+                                                              \* object with p truthy / falsy or absent, nested array
 Truth(p, ek) ==
   CASE p = "none" -> TRUE
     [] p = "T" -> TRUE
